@@ -5,6 +5,7 @@ of Spec/MemSpec.v."""
 from __future__ import annotations
 
 import copy
+import itertools
 import gc
 from dataclasses import dataclass
 
@@ -119,8 +120,16 @@ def run_ops(case):
                 res = m.remove(ev) if op[0] == "remove" else m.remove_series(ev)
                 out.append([[r.success for r in res], []])
             else:
-                _, a, b, rev = op
+                _, a, b, rev = op[:4]
                 res = list(m[a:b:-1] if rev else m[a:b])
+                if len(op) > 4 and op[4] and not rev:
+                    # the first n results are taken from the OPEN-ended slice m[a:] instead (n at most the
+                    # length of the prefix of results ending before b): a stored timeline is sliced lazily like any other
+                    pre = 0
+                    while pre < len(res) and res[pre].end is not None and res[pre].end < b:
+                        pre += 1                      # (a later result may reach b: the open slice would not clip it)
+                    n_open = min(op[4], pre)
+                    res = list(itertools.islice(m[a:], n_open)) + res[n_open:]
                 out.append([[], [code(r) for r in res]])
         return out
     except Exception as ex:
@@ -160,7 +169,7 @@ def shift_ops(ops, d):
         elif o[0] in ("addmany", "removemany", "rseriesmany"):
             out.append([o[0], [[sh(it[0]), sh(it[1])] + list(it[2:]) for it in o[1]]])
         elif o[0] == "slice":
-            out.append(["slice", o[1] + d, o[2] + d, o[3]])
+            out.append(["slice", o[1] + d, o[2] + d] + list(o[3:]))
         elif o[0] == "remove_fetched":
             out.append(["remove_fetched", o[1] + d, o[2] + d])
         else:
@@ -250,7 +259,7 @@ class MemFamily(Family):
                 else:
                     a = BASE + rng.choice([-2 * DAY, -DAY, 0, 2 * H, DAY, 2 * DAY])
                     b = a + rng.choice([H, 5 * H, DAY, 3 * DAY, 6 * DAY])
-                    ops.append(["slice", a, b, rng.random() < 0.35])
+                    ops.append(["slice", a, b, rng.random() < 0.35] + ([rng.choice([1, 2, 5, 50])] if rng.random() < 0.25 else []))
             # one case in four: merge a run of consecutive removals into one remove([...]) call,
             # sometimes naming the same event twice in the batch
             if rng.random() < 0.25:
